@@ -114,10 +114,11 @@ def o_c03_table(ctx, desc, obs, model, kw):
                     ctx.oracle(desc, "finite", k, {}, {"phase": p["phase"], "row": r["name"], "col": col, "value": repr(x)})
             if k in PASSIVE and r["vin"] != 0.0 and r["vout"] != 0.0:
                 vin, vout = r["vin"], r["vout"]
+                slack = 4 * (solved.ATOL + kw.get("vtol", 1e-6) * abs(vin)) + 1e-12
                 if k == "rectifier":
-                    bad = vout < 0 or abs(vout) > abs(vin) * (1 + 1e-9)
+                    bad = vout < -slack or abs(vout) > abs(vin) + slack
                 else:
-                    bad = (vin > 0) != (vout > 0) or abs(vout) > abs(vin) * (1 + 1e-9) + 1e-12
+                    bad = ((vin > 0) != (vout > 0) and abs(vout) > slack) or abs(vout) > abs(vin) + slack
                 if bad:
                     c = comps[r["name"]]
                     trig = {}
